@@ -108,6 +108,8 @@ def run(chk):
                 its.append(nd.iter)
             elif isinstance(nd, ast.Call) and dotted(nd.func) in ("len", "list", "tuple", "sorted", "iter"):
                 its += nd.args[:1]
+            elif isinstance(nd, ast.Starred):
+                its.append(nd.value)
             elif isinstance(nd, ast.Compare) and any(isinstance(o, (ast.In, ast.NotIn)) for o in nd.ops):
                 its += nd.comparators
             for it in its:
